@@ -95,6 +95,8 @@ impl<R> MultithreadedReader<R> {
                 ..
             } => {
                 drop(recycle_tx);
+                #[cfg(noodles_verif)]
+                crossbeam_channel::sim::before_join(&reader_handle);
                 reader_handle.join().unwrap().map_err(|e| e.1)
             }
             State::Done => panic!("invalid state"),
@@ -210,6 +212,9 @@ where
         };
 
         drop(recycle_tx);
+
+        #[cfg(noodles_verif)]
+        crossbeam_channel::sim::before_join(&reader_handle);
 
         // Discard read errors.
         let inner = match reader_handle.join().unwrap() {
@@ -357,6 +362,8 @@ where
     R: Read + Send + 'static,
 {
     use super::reader::frame::{parse_block, read_frame_into};
+    #[cfg(noodles_verif)]
+    use crossbeam_channel::sim::thread;
 
     thread::spawn(move || {
         while let Ok(mut buffer) = recycle_rx.recv() {
